@@ -52,12 +52,21 @@ type Options struct {
 	NoFinal     bool // skip final-state capture
 	// Hook, if set, is called after instantiation (before the script).
 	Hook func(mod api.Module)
+	// Lib, if set, is instantiated first under the name "lib" (the main module imports from it).
+	Lib *wasmgen.Module
 }
 
 // Host implements the deterministic environment: imported functions return values computed
 // from their arguments and the number of calls so far, and log every call.
+// GlobalLog collects, in global order, what several hosts (instances) report.
+type GlobalLog struct {
+	Entered []string // "<module name>.<function index>" per enter() report
+	Calls   []string // host function calls "<name>(args)->results"
+}
+
 type Host struct {
-	Log     []string // log of the most recently used module (kept for single-instance runs)
+	Global  *GlobalLog // optional sink shared by several hosts
+	Log     []string   // log of the most recently used module (kept for single-instance runs)
 	MaxLog  int
 	mod     *wasmgen.Module
 	nesting int
@@ -124,7 +133,7 @@ func (h *Host) Instantiate(ctx context.Context, rt wazero.Runtime, m *wasmgen.Mo
 	b := rt.NewHostModuleBuilder(hostModule(m))
 	n := 0
 	for _, f := range imps {
-		if strings.HasPrefix(f.HostName, "wasi:") {
+		if strings.HasPrefix(f.HostName, "wasi:") || strings.HasPrefix(f.HostName, "lib:") {
 			continue
 		}
 		f := f
@@ -136,6 +145,9 @@ func (h *Host) Instantiate(ctx context.Context, rt wazero.Runtime, m *wasmgen.Mo
 				st := h.state(mod)
 				if len(st.entered) < 100000 {
 					st.entered = append(st.entered, uint32(stack[0]))
+				}
+				if h.Global != nil {
+					h.Global.Entered = append(h.Global.Entered, fmt.Sprintf("%s.%d", mod.Name(), uint32(stack[0])))
 				}
 			})
 		case "grow":
@@ -201,6 +213,9 @@ func (h *Host) Instantiate(ctx context.Context, rt wazero.Runtime, m *wasmgen.Mo
 					fmt.Fprintf(&sb, "%x,", v)
 				}
 				h.log(st, sb.String())
+				if h.Global != nil {
+					h.Global.Calls = append(h.Global.Calls, sb.String())
+				}
 			})
 		}
 		b = b.NewFunctionBuilder().WithGoModuleFunction(fn, f.Sig.P, f.Sig.R).Export(f.HostName)
@@ -231,6 +246,37 @@ func RunIn(ctx context.Context, rt wazero.Runtime, m *wasmgen.Module, script []C
 	if rt.Module(hostModule(m)) == nil {
 		if err := h.Instantiate(ctx, rt, m); err != nil {
 			tr.Inst = wz.Outcome{Kind: wz.KOther, Detail: "host module: " + err.Error()}
+			return
+		}
+	}
+	var libFuel api.MutableGlobal
+	if opt.Lib != nil {
+		hl := &Host{MaxLog: 2000}
+		if rt.Module(hostModule(opt.Lib)) == nil {
+			if err := hl.Instantiate(ctx, rt, opt.Lib); err != nil {
+				tr.Inst = wz.Outcome{Kind: wz.KOther, Detail: "lib host module: " + err.Error()}
+				return
+			}
+		}
+		var lerr error
+		func() {
+			defer func() {
+				if r := recover(); r != nil {
+					lerr = fmt.Errorf("panic escaped Instantiate(lib): %v", r)
+				}
+			}()
+			var lm api.Module
+			lm, lerr = rt.InstantiateWithConfig(ctx, opt.Lib.Bytes, wazero.NewModuleConfig().WithName("lib").WithStartFunctions())
+			if lerr == nil && opt.Lib.FuelGlob != "" {
+				libFuel, _ = lm.ExportedGlobal(opt.Lib.FuelGlob).(api.MutableGlobal)
+			}
+		}()
+		if lerr != nil {
+			o := wz.Classify(lerr)
+			tr.Inst = wz.Outcome{Kind: "lib-failed", Detail: o.String()}
+			if o.Kind == wz.KInternal || strings.HasPrefix(lerr.Error(), "panic escaped") {
+				tr.Inst = wz.Outcome{Kind: wz.KInternal, Detail: "lib: " + firstLine(lerr)}
+			}
 			return
 		}
 	}
@@ -282,6 +328,9 @@ func RunIn(ctx context.Context, rt wazero.Runtime, m *wasmgen.Module, script []C
 		}
 		if fuel != nil && opt.FuelPerCall > 0 {
 			fuel.Set(uint64(uint32(opt.FuelPerCall)))
+		}
+		if libFuel != nil && opt.FuelPerCall > 0 {
+			libFuel.Set(uint64(uint32(opt.FuelPerCall)))
 		}
 		res, out := wz.SafeCall(ctx, f, c.Args...)
 		st := Step{Kind: out.Kind, Detail: out.Detail, Exit: out.Exit}
@@ -575,6 +624,18 @@ type Inst struct {
 
 // Instantiate creates an anonymous instance with the given module config (nil = default).
 func (s *Session) Instantiate(ctx context.Context, mc wazero.ModuleConfig) *Inst {
+	return s.InstantiateNamed(ctx, mc, "")
+}
+
+// ResetFuel refills the instance's fuel global.
+func (in *Inst) ResetFuel(fuel int32) {
+	if in.Mod != nil && in.fuel != nil && fuel > 0 && !in.Mod.IsClosed() {
+		in.fuel.Set(uint64(uint32(fuel)))
+	}
+}
+
+// InstantiateNamed creates an instance under the given name ("" = anonymous).
+func (s *Session) InstantiateNamed(ctx context.Context, mc wazero.ModuleConfig, name string) *Inst {
 	if mc == nil {
 		mc = wazero.NewModuleConfig()
 	}
@@ -586,7 +647,7 @@ func (s *Session) Instantiate(ctx context.Context, mc wazero.ModuleConfig) *Inst
 			}
 		}()
 		s.Host.cur = nil
-		mod, err := s.RT.InstantiateModule(ctx, s.CM, mc.WithName("").WithStartFunctions())
+		mod, err := s.RT.InstantiateModule(ctx, s.CM, mc.WithName(name).WithStartFunctions())
 		in.Tr.Inst = wz.Classify(err)
 		if err == nil {
 			in.Mod = mod
